@@ -15,21 +15,8 @@ vars == <<tid, done, verdict>>
 V0 == [spec |-> "", real |-> "", sev |-> "", drift |-> FALSE]
 Init == tid \in 1..Len(T) /\ done = FALSE /\ verdict = V0
 
-FnModes == {"fn_plain", "fn_args", "fn_compiled"}
-EvalG == [k |-> "g", m |-> "builtins", n |-> "eval"]
-\* function-call modes: the function object is the value of eval(name); it is applied once to the result
-IsFnCall(e, bres) == e.e = "call" /\ e.f.k = "obj" /\ SameVal(e.f.f, EvalG) /\ Len(e.a) >= 1 /\ SameVal(e.a[1], bres)
-FnWhy(base, new, mode) ==
-  LET b == Run(base)  r == Run(new)
-      n == Cardinality({i \in DOMAIN r.ev : IsFnCall(r.ev[i], Result(b))}) IN
-  IF r.st # "stop" THEN "rewritten program does not run to STOP"
-  ELSE IF new[Len(new)].o # "STOP" \/ Count(new, "STOP") # 1 THEN "not exactly one final STOP"
-  ELSE IF n # 1 THEN "function not applied exactly once to the unpickled object"
-  ELSE IF ~IsSubseqEv(b.ev, r.ev) THEN "an effect of the base pickle is lost or reordered"
-  ELSE IF Len(r.ev) # Len(b.ev) + (IF mode = "fn_compiled" THEN 7 ELSE 5) THEN "unexpected number of added effects"
-  ELSE IF Len(r.stack) # 0 THEN "VM stack not empty at STOP"
-  ELSE IF ~(Result(r).k = "obj" /\ Result(r).f.k = "obj" /\ SameVal(Result(r).f.f, EvalG)) THEN "result is not the function's value"
-  ELSE "ok"
+FnModes == FnModeSet
+FnWhy(base, new, mode) == FnWhyOf(base, new, mode)
 
 CountS(q, x) == Cardinality({i \in DOMAIN q : q[i] = x})
 RECURSIVE SubS(_, _, _, _)
@@ -53,7 +40,8 @@ Judge ==
       specWhy == IF R.refused \/ Run(R.base).st # "stop" \/ R.mode \in {"num_first_keep", "num_append_pop"} THEN "ok"   \* (the numeric-argument variants are judged on the real loads only)          \* base outside the typed domain of the VM spec: no spec-level verdict
                  ELSE IF R.mode \in FnModes THEN FnWhy(R.base, R.new, R.mode) ELSE InjWhy(R.base, R.new, R.mode)
       fb == IF R.refused \/ ~R.base_loads THEN 0 ELSE FirstBadRun(R)
-      drift == IF R.refused \/ R.mode \in FnModes \cup {"num_first_keep", "num_append_pop"} THEN FALSE ELSE R.new # Rewrite(R.base, R.mode)
+      drift == IF R.refused \/ R.mode \in {"num_first_keep", "num_append_pop"} THEN FALSE
+               ELSE IF R.mode \in FnModes THEN R.new # RewriteFn(R.base, R.mode, R.fnk) ELSE R.new # Rewrite(R.base, R.mode)
   IN
   /\ ~done /\ done' = TRUE /\ UNCHANGED tid
   /\ verdict' = [spec |-> specWhy,
